@@ -7,8 +7,8 @@
 //   proj P..            the named projection of the parsed AST (before renaming)
 //   ren  d=x.0 u=x ..   every variable occurrence after renaming, in visit order
 //                       (d declaration, t substitution target, u other use)
-//   rep  CODE:s-e:s-e:NAME  the reports pushed by the pass (primary, secondary range, the
-//                       name(s) quoted in the message and the notes)
+//   rep  CODE:s-e:s-e:NAMES the reports pushed by the pass (primary, secondary range, the
+//                       backquoted words of the message)
 //        | perr CODE:s-e:-:NAME  the error returned by the parameter pre-pass
 //   ir   d=x/0 u=x/- .. (name, suffix) of every IR variable occurrence after lifting
 //   tab  x/0@s-e:L ..   the `Declarations` table of the CFG (sorted): key, location, type
@@ -16,6 +16,10 @@
 //   dcl  d@s-e:L u- ..  per IR occurrence (same order as `ir`): what `Cfg::get_declaration`
 //                       answers for it (location and type of the declaration, `-`: none)
 //   ssa  [params] w=x/-/1 r=x/0/2 p=.. a=.. every occurrence after `into_ssa`, with versions
+//   tab2 x/0/1@s-e:L .. the `Declarations` table AFTER `into_ssa` (update_declarations: locals
+//                       re-keyed with their versions), sorted
+//   dcl2 r@s-e:S r- ..  what `Cfg::get_declaration` answers after `into_ssa` for every w=/r=
+//                       occurrence of `ssa` (same order; d p a b tokens left out)
 //
 // Projection (prefix tokens, explicit counts):
 //   def  := P nparams name* start end stmt
@@ -225,28 +229,26 @@ fn quoted(text: &str, out: &mut Vec<String>) {
     }
 }
 
-/// CODE:primary ranges:secondary ranges:NAME -- NAME is the name the report
-/// displays: every backquoted word of the message and of the notes; one name
-/// if they all agree, the `,`-joined list otherwise, `?` if nothing is quoted.
+/// CODE:primary ranges:secondary ranges:NAMES -- NAMES are the backquoted words
+/// of the MESSAGE (`,`-joined, duplicates removed, `?` if nothing is quoted).
+/// The notes are not read: rewording a hint must not look like a scoping
+/// failure. lib/props/C10.py accepts a report iff the expected name is one of
+/// NAMES (and canonicalises the field to that name before diffing).
 fn show_report(r: &Report) -> String {
     let lab = |l: &Vec<program_structure::report::ReportLabel>| {
         l.iter().map(|l| format!("{}-{}", l.range.start, l.range.end)).collect::<Vec<_>>().join("+")
     };
     let (p, s) = (lab(r.primary()), lab(r.secondary()));
-    let mut names = Vec::new();
-    quoted(r.message(), &mut names);
-    for n in r.notes() {
-        quoted(n, &mut names);
+    let mut all = Vec::new();
+    quoted(r.message(), &mut all);
+    let mut names: Vec<String> = Vec::new();
+    for n in all {
+        let n = n.replace(' ', "%20").replace(',', "%2C").replace(':', "%3A").replace('|', "%7C");
+        if !names.contains(&n) {
+            names.push(n);
+        }
     }
-    let shown = names.len();
-    names.dedup();
-    let name = if names.is_empty() {
-        "?".to_string()
-    } else if names.len() == 1 {
-        names[0].replace(' ', "%20")
-    } else {
-        format!("{}#{}", names.join(",").replace(' ', "%20"), shown)
-    };
+    let name = if names.is_empty() { "?".to_string() } else { names.join(",") };
     format!(
         "{}:{}:{}:{}",
         r.id(),
@@ -280,17 +282,17 @@ fn type_letter(t: &ir::VariableType) -> &'static str {
 /// followed by what `Cfg::get_declaration` answers for the name.
 enum Show<'a> {
     Name { versions: bool },
-    Lookup(&'a Cfg),
+    Lookup(&'a Cfg, bool),
 }
 
 impl Show<'_> {
     fn ver(&self) -> bool {
-        matches!(self, Show::Name { versions: true })
+        matches!(self, Show::Name { versions: true } | Show::Lookup(_, true))
     }
     fn occ(&self, tag: &str, v: &ir::VariableName) -> String {
         match self {
             Show::Name { versions } => format!("{tag}={}", vn(v, *versions)),
-            Show::Lookup(cfg) => match cfg.get_declaration(v) {
+            Show::Lookup(cfg, _) => match cfg.get_declaration(v) {
                 None => format!("{tag}-"),
                 Some(d) => {
                     let l = d.file_location();
@@ -405,14 +407,14 @@ fn ir_occurrences(cfg: &Cfg, sh: &Show) -> Vec<String> {
 }
 
 /// The `Declarations` table of the CFG: one `key@location:type` per entry, sorted.
-fn table(cfg: &Cfg) -> Vec<String> {
+fn table(cfg: &Cfg, versions: bool) -> Vec<String> {
     let mut rows: Vec<String> = cfg
         .declarations()
         .iter()
         .map(|(k, d)| {
             let l = d.file_location();
             let same = if vn(k, true) == vn(d.variable_name(), true) { "" } else { "!key" };
-            format!("{}@{}-{}:{}{}", vn(k, false), l.start, l.end, type_letter(d.variable_type()), same)
+            format!("{}@{}-{}:{}{}", vn(k, versions), l.start, l.end, type_letter(d.variable_type()), same)
         })
         .collect();
     rows.sort();
@@ -476,14 +478,34 @@ fn case(src: &str) -> String {
         Some((Err(e), _)) => sections.push(format!("ir error {e}")),
         Some((Ok(cfg), reports)) => {
             sections.push(format!("ir {}", ir_occurrences(&cfg, &Show::Name { versions: false }).join(" ")));
-            sections.push(format!("tab {}", table(&cfg).join(" ")));
-            sections.push(format!("dcl {}", ir_occurrences(&cfg, &Show::Lookup(&cfg)).join(" ")));
+            sections.push(format!("tab {}", table(&cfg, false).join(" ")));
+            sections.push(format!("dcl {}", ir_occurrences(&cfg, &Show::Lookup(&cfg, false)).join(" ")));
             sections.push(format!("rep2 {}", reports.iter().map(show_report).collect::<Vec<_>>().join(" ")));
             let params: Vec<String> = cfg.parameters().iter().map(|p| vn(p, false)).collect();
-            match guarded(move || cfg.into_ssa().map(|c| ir_occurrences(&c, &Show::Name { versions: true })).map_err(|e| show_report(&e.into_report()))) {
+            let after = guarded(move || {
+                cfg.into_ssa()
+                    .map(|c| {
+                        let occ = ir_occurrences(&c, &Show::Name { versions: true });
+                        // the lookups of the same walk, writes and reads only
+                        let all = ir_occurrences(&c, &Show::Lookup(&c, true));
+                        let dcl2: Vec<String> = occ
+                            .iter()
+                            .zip(all.iter())
+                            .filter(|(o, _)| o.starts_with("w=") || o.starts_with("r="))
+                            .map(|(_, l)| l.clone())
+                            .collect();
+                        (occ, table(&c, true), dcl2)
+                    })
+                    .map_err(|e| show_report(&e.into_report()))
+            });
+            match after {
                 None => sections.push("ssa panic".to_string()),
                 Some(Err(e)) => sections.push(format!("ssa error {e}")),
-                Some(Ok(occ)) => sections.push(format!("ssa [{}] {}", params.join(","), occ.join(" "))),
+                Some(Ok((occ, tab2, dcl2))) => {
+                    sections.push(format!("ssa [{}] {}", params.join(","), occ.join(" ")));
+                    sections.push(format!("tab2 {}", tab2.join(" ")));
+                    sections.push(format!("dcl2 {}", dcl2.join(" ")));
+                }
             }
         }
     }
